@@ -161,28 +161,36 @@ def rule_r4(ctx, rid="C05.R4"):
     ctx.r.rule(rid, "predicates agree with publishers: writable() is true under pending output / will_close / close_when_flushed; handle_write relays close_when_flushed to will_close only when nothing is left to send")
     p = ctx.p
     f = p.func("channel.HTTPChannel.writable")
-    rets = [n for n in ast.walk(f.node) if isinstance(n, ast.Return)]
-    if len(rets) != 1 or rets[0].value is None:
-        raise AnalysisError("writable() is not a single return expression")
-    e = rets[0].value
-    atoms = bool_atoms(e)
+    from .common import formula_eval, formula_leaves, return_expression
+    e = return_expression(f)
+    if e is None:
+        raise AnalysisError("writable() does more than decide its return value")
+    # evaluated as a formula over flags {F, T} and the pending counter {0, 1, 2}
+    leaves = formula_leaves(e)
+    role = {}
+    for t in leaves:
+        role[t] = "total_outbufs_len" if t.endswith("total_outbufs_len") else "will_close" if t == "self.will_close" else "close_when_flushed" if t == "self.close_when_flushed" else "other"
     for name in ("total_outbufs_len", "will_close", "close_when_flushed"):
-        al = [a for a in atoms if name in a]
-        if not al:
+        if name not in role.values():
             ctx.r.violation(rid, key_of(f, None, "writable-missing::" + name), "writable() ignores %s: a worker publishing it is never serviced" % name, f.loc())
+    dom = {t: ((0, 1, 2) if role[t] == "total_outbufs_len" else (False, True)) for t in leaves}
+    bad = {}
+    for vals in itertools.product(*[dom[t] for t in leaves]):
+        env = dict(zip(leaves, vals))
+        try:
+            v = bool(formula_eval(e, env))
+        except (KeyError, TypeError) as ex:
+            raise AnalysisError("cannot evaluate writable(): %s" % ex)
+        for t in leaves:
+            if role[t] != "other" and env[t] and not v:
+                bad.setdefault(role[t], env)
+    for name in ("total_outbufs_len", "will_close", "close_when_flushed"):
+        if name not in role.values():
             continue
-        a0 = al[0]
-        others = [a for a in atoms if a != a0]
-        bad = None
-        for vals in itertools.product([False, True], repeat=len(others)):
-            asg = dict(zip(others, vals))
-            asg[a0] = True
-            if not bool_eval(e, asg):
-                bad = asg
-        if bad is None:
-            ctx.r.ok(rid, "writable() is true whenever %s" % a0, f.loc())
+        if name in bad:
+            ctx.r.violation(rid, key_of(f, None, "writable-false-under::" + name), "writable() can be false although %s holds (e.g. %s)" % (name, bad[name]), f.loc())
         else:
-            ctx.r.violation(rid, key_of(f, None, "writable-false-under::" + name), "writable() can be false although %s" % a0, f.loc())
+            ctx.r.ok(rid, "writable() is true whenever %s" % name, f.loc())
     # relay
     hw = p.func("channel.HTTPChannel.handle_write")
     g = cfg_of(hw)
